@@ -30,8 +30,8 @@ def scenarios(tier, seed):
     s = seed % 1000 + 1
     scs = [
         dict(id="ppo:A", algo="ppo", script=SCRIPT_A, nenvs=2, nsteps=3, epochs=2, iterations=3, seed=s, logger=True),
-        dict(id="a2c:A", algo="a2c", script=SCRIPT_A, nenvs=2, nsteps=3, pgs=1, vgs=2, budget=17, seed=s, autoreset="NEXT_STEP"),
-        dict(id="reinforce:A", algo="reinforce", script=SCRIPT_A, minsamples=5, tae=False, pgs=1, vgs=2, budget=12, seed=s),
+        dict(id="a2c:A", algo="a2c", script=SCRIPT_A, nenvs=2, nsteps=3, pgs=1, vgs=2, budget=18, seed=s, autoreset="NEXT_STEP"),
+        dict(id="reinforce:A", algo="reinforce", script=SCRIPT_A, minsamples=4, tae=False, pgs=1, vgs=2, budget=12, seed=s),
         dict(id="reinforce:T", algo="reinforce", script=SCRIPT_T, minsamples=5, tae=True, pgs=2, vgs=1, budget=6, seed=0),
         dict(id="actor_critic:B", algo="actor_critic", script=SCRIPT_B, minsamples=4, tae=False, pgs=1, vgs=2, budget=9, seed=s),
     ]
@@ -45,6 +45,8 @@ def scenarios(tier, seed):
             dict(id="reinforce_gauss:B", algo="reinforce_gauss", script=SCRIPT_B, minsamples=4, tae=False, pgs=1, vgs=1, budget=10, seed=s + 2),
             dict(id="reinforce:exact", algo="reinforce", script=SCRIPT_B, minsamples=3, tae=False, pgs=1, vgs=1, budget=6, seed=s),
             dict(id="actor_critic:T", algo="actor_critic", script=SCRIPT_T, minsamples=9, tae=True, pgs=1, vgs=1, budget=7, seed=s + 5),
+            dict(id="ppo:three_envs", algo="ppo", script=SCRIPT_A, nenvs=3, nsteps=2, epochs=2, iterations=2, seed=s + 9, logger=True),
+            dict(id="a2c:three_envs", algo="a2c", script=SCRIPT_A, nenvs=3, nsteps=2, pgs=3, vgs=1, budget=13, seed=s + 9, autoreset="NEXT_STEP"),
             dict(id="actor_critic:L", algo="actor_critic", script=[(7, "trunc"), (2, "term")], minsamples=3, tae=False, pgs=2, vgs=2, budget=10, seed=0),
         ]
     return scs
@@ -150,12 +152,12 @@ def steps_of(opt):
     return int(np.asarray(opt.step.value)) if opt is not None else 0
 
 
-def update_wrapper(log, real, kind, n_of, rows_of, opts):
+def update_wrapper(log, real, kind, n_of, rows_of, opts, ne_of=None):
     """Wrap an update routine (update_ppo, train_policy_*, train_value_function)."""
 
     def wrapped(*a, **k):
         p0, v0 = steps_of(opts[0]), steps_of(opts[1])
-        log.emit("update_begin", kind=kind, n=int(n_of(a, k)), rows=tags(rows_of(a, k)))
+        log.emit("update_begin", kind=kind, n=int(n_of(a, k)), ne=int(ne_of(a, k)) if ne_of else 0, rows=tags(rows_of(a, k)))
         out = real(*a, **k)
         log.emit("update_end", kind=kind, dp=steps_of(opts[0]) - p0, dv=steps_of(opts[1]) - v0)
         return out
@@ -208,7 +210,8 @@ def run_ppo(sc):
 
     names = dict(
         collect_trajectories=collect,
-        update_ppo=update_wrapper(log, m.update_ppo, "ppo", lambda a, k: _arg(a, k, 9, "epochs"), lambda a, k: _arg(a, k, 4, "observation"), (popt, vopt)),
+        update_ppo=update_wrapper(log, m.update_ppo, "ppo", lambda a, k: _arg(a, k, 9, "epochs"), lambda a, k: _arg(a, k, 4, "observation"), (popt, vopt),
+                                  ne_of=lambda a, k: _arg(a, k, 10, "n_envs")),
         ppo_loss=loss_wrapper(log, m.ppo_loss, "ppo", lambda a, k: _arg(a, k, 3, "observations")),
     )
     with interpose(m, **names), jax.disable_jit():
